@@ -757,7 +757,11 @@ func main() {
 	repo := flag.String("repo", "/repo", "repository root")
 	consts := flag.String("consts", "", "output Lean file")
 	skeleton := flag.String("skeleton", "", "output skeleton file")
+	locktable := flag.String("locktable", "", "output Lean lock table")
 	flag.Parse()
+	if *locktable != "" {
+		genLockTable(*repo, *locktable)
+	}
 	if *consts != "" {
 		genConsts(*repo, *consts)
 	}
